@@ -1,4 +1,5 @@
 import Mdsort.Model.Lex
+import Mdsort.Proofs.LexAux
 
 /-! Lemmas for C14: the lexer is total, makes progress, and reads back what the grammar prints. -/
 
@@ -11,29 +12,134 @@ once per shift, terminates on every byte string). -/
 theorem lex_progress (pflag sflag afterMacro : Bool) (input : Bytes) :
     let r := lex1 pflag sflag afterMacro input
     (∃ pre, input = pre ++ r.rest) ∧ (r.tok ≠ .eof → r.rest.length < input.length) := by
-  sorry
+  intro r
+  have h := LexAux.lex1_good pflag sflag afterMacro input
+  obtain ⟨pre, hpre⟩ := h.1
+  exact ⟨⟨pre, hpre.symm⟩, h.2⟩
 
 /-- Every keyword of the regenerated table lexes to its own token when followed by a byte that
 cannot continue a word. -/
 theorem lex_keyword (sflag : Bool) (kw tokname : String) (rest : Bytes)
     (hk : (kw, tokname) ∈ Gen.keywords) (hr : ∀ c, rest.head? = some c → isKwChar c = false) :
     lex1 false sflag false (kw.toUTF8.toList ++ rest) = { tok := .keyword tokname, rest := rest, errors := 0 } := by
-  sorry
+  have hok := List.all_eq_true.mp LexAux.kw_table _ hk
+  simp only [LexAux.kwOk, Bool.and_eq_true, decide_eq_true_eq, beq_iff_eq] at hok
+  obtain ⟨⟨⟨hfind, hall⟩, hhead⟩, hlen⟩ := hok
+  cases hbs : kw.toUTF8.toList with
+  | nil => rw [hbs] at hhead; simp at hhead
+  | cons c t =>
+    rw [hbs] at hfind hall hhead hlen
+    simp only at hhead
+    rw [List.cons_append, LexAux.lex1_of_lower _ _ _ _ hhead]
+    exact LexAux.lexTok_keyword sflag c t rest (kw, tokname) hhead hall hlen hfind hr
 
 /-- How the grammar prints a string: `"` is written `\"`. -/
 def escapeQuote (b : Bytes) : Bytes := b.flatMap fun c => if c == 34 then [92, 34] else [c]
+
+theorem LexAux.escapeQuote_nil : escapeQuote [] = [] := rfl
+
+theorem LexAux.escapeQuote_cons (x : UInt8) (b : Bytes) :
+    escapeQuote (x :: b) = (if x == 34 then [92, 34] else [x]) ++ escapeQuote b := by
+  simp [escapeQuote, List.flatMap_cons]
+
+theorem LexAux.collect_escape (rest : Bytes) : ∀ (b acc : Bytes) (fuel : Nat),
+    b.getLast? ≠ some 92 → acc.length + b.length ≤ BUFSIZ - 1 → (escapeQuote b).length < fuel →
+    collect 34 fuel (escapeQuote b ++ 34 :: rest) acc = some (some (acc ++ b), rest) := by
+  intro b
+  induction b with
+  | nil =>
+    intro acc fuel _ _ hf
+    cases fuel with
+    | zero => simp at hf
+    | succ f => simp [LexAux.escapeQuote_nil, collect]
+  | cons x b' ih =>
+    intro acc fuel hlast hlen hf
+    have hacc : (acc.length == BUFSIZ - 1) = false := by
+      simp only [List.length_cons] at hlen
+      simp only [beq_eq_false_iff_ne]; omega
+    have hlen' : (acc ++ [x]).length + b'.length ≤ BUFSIZ - 1 := by
+      simp only [List.length_cons, List.length_append, List.length_nil] at hlen ⊢; omega
+    have happ : acc ++ [x] ++ b' = acc ++ x :: b' := by simp
+    cases fuel with
+    | zero => simp at hf
+    | succ f =>
+      rw [LexAux.escapeQuote_cons] at hf ⊢
+      by_cases h34 : x = 34
+      · subst h34
+        have hl' : b'.getLast? ≠ some 92 := by
+          cases b' with
+          | nil => simp
+          | cons y b'' => rwa [List.getLast?_cons_cons] at hlast
+        simp only [beq_self_eq_true, if_true, List.length_append, List.length_cons, List.length_nil] at hf
+        have := ih (acc ++ [34]) f hl' hlen' (by omega)
+        simp only [beq_self_eq_true, if_true, List.cons_append, List.nil_append]
+        rw [collect]
+        simp [hacc, this]
+      · have hx : (x == 34) = false := by simp [h34]
+        simp only [hx, Bool.false_eq_true, if_false, List.length_append, List.length_cons, List.length_nil] at hf
+        simp only [hx, Bool.false_eq_true, if_false, List.cons_append, List.nil_append]
+        by_cases h92 : x = 92
+        · subst h92
+          cases b' with
+          | nil => simp at hlast
+          | cons y b'' =>
+            rw [List.getLast?_cons_cons] at hlast
+            have := ih (acc ++ [92]) f hlast hlen' (by simp at hf ⊢; omega)
+            rw [LexAux.escapeQuote_cons] at this ⊢
+            by_cases hy : y = 34
+            · subst hy
+              simp only [beq_self_eq_true, if_true, List.cons_append, List.nil_append] at this ⊢
+              rw [collect]
+              simp [hacc, this]
+            · have hy' : (y == 34) = false := by simp [hy]
+              simp only [hy', Bool.false_eq_true, if_false, List.cons_append, List.nil_append] at this ⊢
+              rw [collect]
+              simp [hacc, this, hy]
+        · have hx92 : (x == 92) = false := by simp [h92]
+          have hl' : b'.getLast? ≠ some 92 := by
+            cases b' with
+            | nil => simp
+            | cons y b'' => rwa [List.getLast?_cons_cons] at hlast
+          have := ih (acc ++ [x]) f hl' hlen' (by simp at hf ⊢; omega)
+          rw [collect.eq_def]
+          simp [hx, hx92, hacc, this]
 
 /-- A printed string reads back as itself: for every non-empty byte string without NUL that does
 not end in a backslash and fits the lexeme buffer. -/
 theorem lex_string_roundtrip (pflag sflag : Bool) (b rest : Bytes)
     (hne : b ≠ []) (hnul : (0 : UInt8) ∉ b) (hlast : b.getLast? ≠ some 92) (hlen : b.length < BUFSIZ - 1) :
     lex1 pflag sflag false ([34] ++ escapeQuote b ++ [34] ++ rest) = { tok := .str b, rest := rest, errors := 0 } := by
-  sorry
+  have hc := LexAux.collect_escape rest b [] ((escapeQuote b ++ 34 :: rest).length + 1) hlast
+    (by simp only [List.length_nil]; omega) (by simp only [List.length_append]; omega)
+  have hin : [34] ++ escapeQuote b ++ [34] ++ rest = 34 :: (escapeQuote b ++ 34 :: rest) := by simp
+  have hcs : cstr b = b := cstr_of_no_nul (fun x hx h0 => hnul (h0 ▸ hx))
+  have hemp : b.isEmpty = false := by cases b <;> simp_all
+  rw [hin]
+  have h1 : lex1 pflag sflag false (34 :: (escapeQuote b ++ 34 :: rest))
+      = lex1.lexTok pflag sflag 34 (escapeQuote b ++ 34 :: rest) 0 := by
+    have : isspace 34 = false := by decide
+    simp [lex1, this]
+  rw [h1]
+  unfold lex1.lexTok
+  simp only [beq_self_eq_true, if_true, hc, List.nil_append, hcs, hemp]
+  simp
 
 /-- A decimal literal below 2^32 reads back as its value; one at or above 2^32 is an error. -/
 theorem lex_int (sflag : Bool) (n : Nat) (rest : Bytes) (hr : ∀ c, rest.head? = some c → isdigit c = false) :
     let r := lex1 false sflag false ((toString n).toUTF8.toList ++ rest)
     (n < 2 ^ 32 → r = { tok := .int n, rest := rest, errors := 0 }) ∧ (n ≥ 2 ^ 32 → r.errors ≥ 1 ∧ r.rest = rest) := by
-  sorry
+  obtain ⟨ds, hbytes, hne, hdig, hval⟩ := LexAux.toString_bytes n
+  cases ds with
+  | nil => exact absurd rfl hne
+  | cons c t =>
+    have hc : isdigit c = true := hdig c (by simp)
+    have hspec := LexAux.lexDigits_spec rest hr (c :: t) ((t ++ rest).length + 2) 0 0 hdig
+      (by simp only [List.length_cons, List.length_append]; omega) (by decide)
+    rw [hval, List.cons_append] at hspec
+    obtain ⟨h1, h2, h3⟩ := hspec
+    simp only [hbytes, List.cons_append, LexAux.lex1_of_digit _ _ _ hc]
+    refine ⟨fun hn => ?_, fun hn => ⟨?_, h1⟩⟩
+    · rw [h2 hn, Nat.zero_add]
+    · rw [h3 hn]; omega
 
 end Mdsort.Proofs
